@@ -157,6 +157,11 @@ func setFromUpdateHandler(par, rounds int, rng *hx.Rand) (int, string) {
 	for r := 0; r < rounds; r++ {
 		g := newGraph(par)
 		v := incr.Var(g, 0)
+		if r%2 == 1 {
+			// an equality var: a write of the value it holds is a no-op -- unless an earlier
+			// write of the same pass is still pending, which this one must then supersede
+			v = incr.VarEqual(g, 0)
+		}
 		u := incr.Var(g, 0)
 		w := incr.Var(g, 1)
 		mid, late, upd := 0, 0, 0
@@ -194,6 +199,9 @@ func setFromUpdateHandler(par, rounds int, rng *hx.Rand) (int, string) {
 				// and the writes made during the pass come on top of it
 				vv = 900 + rng.Intn(90)
 				v.Set(vv)
+			}
+			if rng.Chance(1, 3) {
+				late = vv // the handler writes back the value the var holds while the pass runs
 			}
 			before := vv*1000 + uv
 			if err := pass(g, par); err != nil {
